@@ -20,7 +20,7 @@ from .core import AnalysisError, Check, Repo
 def run_property(prop: str, tier: str, repo: Repo | None = None, write_evidence=True) -> int:
     mod = importlib.import_module(f"sa.props.{prop.lower()}")
     chk = Check(prop, tier, repo)
-    mod.run(chk)
+    chk.guard(mod.run, chk)
     if tier == "thorough" and hasattr(mod, "run_thorough"):
         mod.run_thorough(chk)
     if tier == "thorough" and not os.environ.get("IRISPIE_VERIF_SRC") and not os.environ.get("VERIF_NO_SELFTEST"):
